@@ -435,7 +435,7 @@ OBLIGATIONS = [
 # ---------------------------------------------------------------------------------------------
 
 
-def _explore(res, name, K, D, pre, action, post, extra_caps=None, max_paths=300, on_violation=None, labels=None, cte_depth=None, allow_integrity=False, fixed=None, allow_exc=(), lazy_enums=False):
+def _explore(res, name, K, D, pre, action, post, extra_caps=None, max_paths=300, on_violation=None, labels=None, cte_depth=None, allow_integrity=False, fixed=None, allow_exc=(), lazy_enums=False, internal_error_violates=False):
     """Generic inductive-step driver: fresh symbolic state, assume pre, run action natively, check post."""
     counts = {"paths": 0, "raised": 0}
     if lazy_enums:
@@ -473,7 +473,11 @@ def _explore(res, name, K, D, pre, action, post, extra_caps=None, max_paths=300,
                 return  # a rejected request: allowed outcome
             v, m, dt = pr.run.query()
             res.q(f"{name}: no internal error ({type(exc).__name__}: {str(exc)[:80]})", "sat" if v == "sat" else v, dt)
-            if v == "sat":
+            if v == "sat" and internal_error_violates and on_violation is not None and type(exc).__name__ in ("ConsistencyError", "AssertionError", "IntegrityError"):
+                # an internal error from a state that satisfies the invariants: a violation if it replays
+                wf0 = Wf(K=K, D=D, extra_caps=extra_caps or {}, labels=labels, fixed=fixed)
+                on_violation(res, wf0, m, _content_json(wf0, m), ["raised " + type(exc).__name__], {"raised": exc})
+            elif v == "sat":
                 res.inconclusive.append(f"{name}: raised {type(exc).__name__}: {exc} on a feasible path (state: {_content_json(Wf(K=K, D=D, extra_caps=extra_caps or {}, labels=labels), m)[:600]})")
             return
         wf, aux = pr.value
@@ -513,6 +517,7 @@ def _explore(res, name, K, D, pre, action, post, extra_caps=None, max_paths=300,
 
     workers = int(os.environ.get("VF_WORKERS", "1") or 1)
     ex = Explorer(max_paths=max_paths)
+    ex.lazy_text = bool(lazy_enums)  # labels stay symbolic only where the C boundaries are wrapped (lazyenum.install)
     try:
         ex.explore(body, on_path, workers=workers, state=_State())
     except Unsupported as exc:
@@ -523,6 +528,8 @@ def _explore(res, name, K, D, pre, action, post, extra_caps=None, max_paths=300,
 
 
 def _replay_generic(res, oid, key, content, body_code, what, targets=None):
+    if any(v.key == key for v in res.violations):
+        return  # one replayed witness per finding is enough
     rp = write_replay("C" + oid[1:3], oid, f"{key} {content}", REPLAY_DB.format(content=content, targets=targets or {}, body=body_code))
     ok, out = run_replay(rp)
     if ok:
